@@ -411,7 +411,8 @@ class TestCase:  # noqa: PLR0904
             True if all references are satisfiable, False if the statement must
             be dropped.
         """
-        for name in stmt.used_variables():
+        # sorted: used_variables() is a frozenset[str]; one RNG draw per name must not follow the str hash
+        for name in sorted(stmt.used_variables()):
             if name in dropped:
                 return False
             if name in rename:
